@@ -82,7 +82,7 @@ def run(ctx):
             r.check('would-block:drain-written-prefix', wbody[-1] == SOB + 'drain_written(self.outbuf, $m0)' and wb[0].value_str() == 'Ok(())' and wb[0].done == 'return', site, built=wbody,
                     expected=SOB + 'drain_written(self.outbuf, $m0); return Ok(())', why='exactly the bytes written so far are dropped; the rest stays queued in order')
             r.eq('error:mapped', (er[0].value_str(), er[0].done),
-                 ('std::result::Result::map_err(Err(%s.Err.0), |$c0| errors::Error::IoErrorWritingSocket{source: $c0})' % WR, 'return'), site)
+                 ('Err(errors::Error::IoErrorWritingSocket{source: %s.Err.0})' % WR, 'return'), site)
             r.check('error:nothing-dropped', not [e for e in er[0].effects if 'drain' in e or 'clear' in e], site)
             r.check('complete:clear', done[0].effects[-1] == SOB + 'clear(self.outbuf)' and done[0].value_str() == 'Ok(())', site, built=done[0].effects[-2:],
                     why='after the loop everything (len bytes) has been written')
